@@ -318,14 +318,15 @@ def makeCode3206 (f00 : Fields) : Option PFields :=
   | some pf =>
     if pf.f.op.head? == some '[' then (reiterateOpPart pf.f).map (fun f => ⟨pf.pre ++ [pf.f.op], f⟩) else some pf
 
-/-- `DecodeOP`: note that the mnemonic is upper-cased only when parameters follow it -/
+/-- `DecodeOP`: the inner mnemonic is upper-cased with and without parameters behind it (without them only since the
+repair abd5d30) -/
 def decodeOP7720 (f : Fields) : PFields :=
   match f.args with
   | [] => ⟨[f.op], ⟨f.lab, [], [], []⟩⟩
   | a :: rest =>
     match splitAtBlank a with
     | some (h, t) => ⟨[f.op], ⟨f.lab, upStr h, [], t :: rest⟩⟩
-    | none => ⟨[f.op], ⟨f.lab, a, [], rest⟩⟩
+    | none => ⟨[f.op], ⟨f.lab, upStr a, [], rest⟩⟩
 
 /-- attribute at the last '.' (`strrchr`) -/
 def splitAttrLast (opU : List Char) : List Char × List Char :=
